@@ -181,11 +181,11 @@ LEX_NONFIN = ["inf", "INF", "Inf", "infinity", "Infinity", "iNfInItY", "nan", "N
 
 
 def _exp_ok(t):
-    """the model computes the exact value of a literal: exponents of more than 4 digits are kept out of the generated tokens
+    """the model computes the exact value of a literal: exponents of more than 3 digits are kept out of the generated tokens
     (Python answers inf / 0.0 at once, 10^(10^20) cannot be written down)"""
     import unicodedata
     f = "".join(str(unicodedata.decimal(ch)) if (ch.isdigit() and unicodedata.category(ch) == "Nd") else ch for ch in t).replace("_", "")
-    return re.search(r"[eE][+-]?[0-9]{5,}", f) is None
+    return re.search(r"[eE][+-]?[0-9]{4,}", f) is None
 
 
 def gen_lex_tok(rng):
